@@ -5,8 +5,9 @@
   name has a *volatile* content (what processes see, what survives a process kill: page cache)
   and a *durable* content (what survives power loss). `none` = the name does not exist.
 
-      open(tmp, O_CREAT|O_TRUNC)   tmp := empty on both levels        (tmp is a fresh name)
-      write(n bytes of data)       tmp.vol grows by data[:n]          (short write + error possible)
+      open(tmp, O_CREAT|O_TRUNC)   tmp := empty on both levels
+      open(tmp, O_CREAT)           tmp := empty if absent, else unchanged (not issued by the real code)
+      write(n bytes of data)       tmp.vol[0:n] := data[:n], rest kept (short write + error possible)
       fsync                        tmp.dur := tmp.vol
       rename(tmp, cur)             cur := tmp on both levels, tmp disappears   (atomic)
       unlink(tmp)                  tmp disappears
@@ -45,6 +46,7 @@ deriving Repr, DecidableEq
 
 inductive Op
   | openTrunc (ok : Bool)
+  | openKeep (ok : Bool)          -- open with O_CREAT but WITHOUT O_TRUNC: an existing file keeps its content
   | write (n : Nat) (ok : Bool)   -- n bytes of the snapshot reached the file; ok = no error returned
   | fsync (ok : Bool)
   | rename (ok : Bool)
@@ -52,7 +54,7 @@ inductive Op
   | unlink (ok : Bool)
 deriving Repr, DecidableEq
 
-inductive Variant | fileOrig | fileFixed | genOrig | genFixed
+inductive Variant | fileOrig | fileFixed | genOrig | genFixed | genNoTrunc
 deriving Repr, DecidableEq
 
 inductive PC
@@ -69,9 +71,13 @@ def absent : FileSt := ⟨none, none⟩
 /-- effect of a syscall on the file system (`data` = the buffer the save writes) -/
 def apply (data : Bytes) (fs : FS) : Op → FS
   | .openTrunc true => { fs with tmp := ⟨some [], some []⟩ }
-  | .write n _ =>
+  | .openKeep true =>
     match fs.tmp.vol with
-    | some c => { fs with tmp := { fs.tmp with vol := some (c ++ data.take n) } }
+    | some _ => fs                                     -- a leftover temp file keeps its bytes
+    | none => { fs with tmp := ⟨some [], some []⟩ }
+  | .write n _ =>                                      -- the one write of a save, at file position 0
+    match fs.tmp.vol with
+    | some c => { fs with tmp := { fs.tmp with vol := some (data.take n ++ c.drop n) } }
     | none => fs
   | .fsync true => { fs with tmp := { fs.tmp with dur := fs.tmp.vol } }
   | .rename true => { cur := fs.tmp, tmp := absent }
@@ -114,6 +120,15 @@ def next (data : Bytes) : Variant → PC → Op → Option PC
   | .genFixed, .synced, .close _ => some .closedOk
   | .genFixed, .failing, .close _ => some .done
   | .genFixed, .closedOk, .rename _ => some .done
+  -- offset/offset.go with the temp file opened without O_TRUNC (a seeded change; kept as a program
+  -- to show what the truncation is needed for)
+  | .genNoTrunc, .start, .openKeep ok => some (if ok then .opened else .done)
+  | .genNoTrunc, .opened, .write n ok =>
+    if writeValid data n ok then some (if ok then .written else .failing) else none
+  | .genNoTrunc, .written, .fsync ok => some (if ok then .synced else .failing)
+  | .genNoTrunc, .synced, .close _ => some .closedOk
+  | .genNoTrunc, .failing, .close _ => some .done
+  | .genNoTrunc, .closedOk, .rename _ => some .done
   | _, _, _ => none
 
 def step? (v : Variant) (data : Bytes) (s : St) (op : Op) : Option St :=
@@ -126,6 +141,27 @@ def step? (v : Variant) (data : Bytes) (s : St) (op : Op) : Option St :=
 def init (old : Option Bytes) : St := ⟨⟨⟨old, old⟩, absent⟩, .start⟩
 
 def run (v : Variant) (data : Bytes) : St → List Op → Option St := TS.run (step? v data)
+
+/-- does the program use a fresh temp name for every save? (file plugin: random suffix; the
+    generic package always uses `<path>.tmp`, so a temp file left by an interrupted save is still
+    there when the next save starts) -/
+def freshTmp : Variant → Bool
+  | .fileOrig => true
+  | .fileFixed => true
+  | _ => false
+
+/-- the file system a save starts on -/
+def beginSave (v : Variant) (fs : FS) : FS := if freshTmp v then { fs with tmp := absent } else fs
+
+/-- a history of saves: each save writes its own buffer and has its own op list (its failure
+    pattern, and where it stopped: a killed save is a run that ends early); the file system —
+    including a temp file left behind — is carried from one save to the next -/
+def runHist (v : Variant) : FS → List (Bytes × List Op) → Option FS
+  | fs, [] => some fs
+  | fs, (data, ops) :: rest =>
+    match run v data ⟨beginSave v fs, .start⟩ ops with
+    | none => none
+    | some s => runHist v s.fs rest
 
 /-- what a restarted process finds in the offsets file after a process kill -/
 def crashKill (fs : FS) : Option Bytes := fs.cur.vol
